@@ -351,10 +351,42 @@ def generator_frame_obligations(rep, prop):
         out.append(core.Ob(f'{prop}/{fn.name}/returns-a-list-created-in-the-call', fn, 'ast-dataflow', core.PROVED if ok else core.REFUTED, 0.0, clause='every return statement returns a list display or a local bound exactly once, to a list display; the body ends with a return (never None, never an argument)'))
     for o in out: rep.add(o)
     return out
+def grouping_standin(rep):
+    """bounded stand-in (labelled bounded, never counted as proved) for what the builders ASSUME about `_group_consumer_transformations`: the real function on every consumer list of the scope"""
+    import itertools
+    g, qt, PAR = _vo_mods(); T = qt.QuantTransformation; G = g.TransformationInstructionsGenerator; obj = object.__new__(G)
+    trs = [[]] + [[a] for a in (0, 1, 2)] + [[a, b] for a in (0, 1, 2) for b in (1, 2)] + [[1, 2, 1]]; opts = [(t, k) for t in trs for k in (0, 2)]
+    total = fails = 0; first = None
+    for n in (0, 1, 2, 3):
+        for combo in itertools.product(opts, repeat=n):
+            cons = [qt.OpToTensorParams(subgraph_op_id=10 + i, transformations=[T(t) for t in trs_], parameters=PAR[k]) for i, (trs_, k) in enumerate(combo)]
+            param = qt.TensorTransformationParams(tensor_name='t', producer=None, consumers=cons); total += 1; bad = None
+            try: cg = G._group_consumer_transformations(obj, param)
+            except Exception as e: bad = f'raised {type(e).__name__}: {e}'; cg = None
+            if cg is not None:
+                if n == 0: bad = None if cg == [] else 'non-empty grouping for no consumers'
+                else:
+                    longest = max(len(c.transformations) for c in cons)
+                    if len(cg) != longest + 1 or cg[0] != [set(range(n))]: bad = 'depth 0 is not [{all positions}] or the number of depths is not 1 + the longest chain'
+                    for d in range(1, len(cg)):
+                        want = {i for i in range(n) if len(cons[i].transformations) >= d}; seen_ = set()
+                        for grp in cg[d]:
+                            if not grp or not grp <= want or grp & seen_: bad = f'depth {d}: group {grp} is empty, names a consumer with fewer than {d} transformations, or overlaps another group'
+                            seen_ |= grp
+                            if d >= 2 and not any(grp <= up for up in cg[d - 1]): bad = f'depth {d}: group {grp} is not inside one group of depth {d - 1} (not laminar)'
+                            if any(cons[i].transformations[d - 1] != cons[min(grp)].transformations[d - 1] or cons[i].parameters != cons[min(grp)].parameters for i in grp): bad = f'depth {d}: group {grp} merges different transformations / parameters'
+                        if seen_ != want: bad = f'depth {d}: consumers {want - seen_} with at least {d} transformations are in no group'
+            if bad: fails += 1; first = first or (combo, bad)
+    rep.add_bounded('_group_consumer_transformations (real code): every depth >= 1 is a partition of the consumers with at least that many transformations into non-empty, laminar groups of equal transformation and parameters (the preconditions the two builders assume)',
+                    'all consumer lists with <= 3 consumers x transformation chains of length <= 3 over {NO_QUANTIZE, ADD_QUANTIZE, ADD_DEQUANTIZE} x 2 parameter classes', total, fails, note=str(first) if first else '')
+    if first:
+        ob = core.Ob('generator/bounded.grouping/groups-are-non-empty-laminar-partitions', None, 'bounded-native', core.REFUTED, 0.0, detail=str(first[1]), clause='grouping contract assumed by the builders'); ob.replay = dict(confirmed=True, inputs=dict(consumers=[list(c) for c in first[0]]), violated=[first[1]]); rep.add(ob)
+    return fails
 def compose_obligations(rep, prop):
     obs = pyvc.verify(rep, prop, core.Fn(TIG, QP_Q), compose.QuantParamsToInsts(), select=None, replay=lambda mv, label: _qp_search(label) or dict(confirmed=False, inputs=mv), fallback=_qp_search)
     obs += other_obligations(rep, prop)
     obs += generator_frame_obligations(rep, prop)
+    grouping_standin(rep)
     src = core.read_source(TIG)
     for name, a, b in (QP_CANARIES if rep.tier == 'thorough' else [QP_CANARIES[(rep.seed + k) % len(QP_CANARIES)] for k in (0, 2)]):
         if a not in src: rep.canary(name, False, 'mutation site not found (stale canary)'); continue
